@@ -457,8 +457,8 @@ func report(L *Loaded, id, tier string, seed int, ps *PropSpec, results []*harne
 	}
 	assumptions := []string{
 		"bounded symbolic execution of go/ssa built from /repo's working tree at check time; nothing is claimed outside the per-harness bounds listed under coverage.harnesses[].bounds/params",
-		"trusted base: go/ssa construction, the symgo interpreter's operational semantics, the term simplifier, z3 4.8.12",
-		"hash stub: SHA-256 is an arbitrary injective function; only the first W bits of each digest are symbolic (W = param HASHBITS, default 8), the rest are zero",
+		"trusted base: go/ssa construction, the symgo interpreter's operational semantics, the term simplifier, z3 5.1 (z3-new; one-shot fall-backs cvc5 1.0 and z3 4.8.12)",
+		"hash stub: SHA-256 is an arbitrary injective function; only the first W bits of each digest are symbolic (W = harness param), the rest are zero; harnesses that say so fix the placement (vfHashFixed) or use the real SHA-256 (vfHashReal)",
 		"logging, tracing and metrics packages are stubbed to no-ops; math/rand.Shuffle is the identity; map iteration order is insertion order; preemption only at synchronisation points within the stated context-switch budget",
 	}
 	assumptions = append(assumptions, ps.Assumptions...)
